@@ -1156,7 +1156,7 @@ void NifFile::SetTextureSlot(NiShape* shape, std::string& inTexFile, uint32_t te
 }
 
 void NifFile::TrimTexturePaths() {
-	auto fTrimPath = [&hdr = hdr, &isTerrain = isTerrain](std::string& tex) -> std::string& {
+	auto fTrimPathOnce = [&hdr = hdr, &isTerrain = isTerrain](std::string& tex) -> std::string& {
 		if (tex.empty())
 			return tex;
 
@@ -1189,6 +1189,19 @@ void NifFile::TrimTexturePaths() {
 		// If the path doesn't start with "Data\", add it to the front
 		if (isTerrain && is_relative_path(tex)) {
 			tex = std::regex_replace(tex, std::regex("^(?!^Data\\\\)", std::regex_constants::icase), "Data\\");
+		}
+		return tex;
+	};
+
+	// Clean until nothing changes any more, so that a cleaned path is a fixed point of the clean-up.
+	// (Without a re-added "textures\" prefix - Oblivion - one pass can expose a second "\textures\"
+	// component or leading blanks that the next load would strip again.)
+	auto fTrimPath = [&fTrimPathOnce](std::string& tex) -> std::string& {
+		for (int pass = 0; pass < 16; pass++) {
+			std::string before = tex;
+			fTrimPathOnce(tex);
+			if (tex == before)
+				break;
 		}
 		return tex;
 	};
